@@ -234,6 +234,34 @@ def lanceroRun (o : LObj) : List LStep → List (Option Tables)
 
 def LObj.fresh : LObj := { cfg := { firstRow := 0, sepCards := 0, sepCols := 0, devs := [] }, groups := [] }
 
+/-! #### `LanceroSource.Configure`: which cards become active
+
+`ActiveCards` is any list of integers.  The loop activates the cards in list order and stops with an error at the
+first entry that names no device or names a device that is already active (`contains(ls.active, dev)`: ANY earlier
+position, not only the previous one).  The numbering parameters are stored, and `ls.active` reset, before the loop:
+a refused request leaves the new parameters and the cards activated before the offending entry. -/
+
+structure LReq where
+  active : List Int
+  firstRow : Int
+  sepCards : Int
+  sepCols : Int
+deriving Repr
+
+/-- the loop over `config.ActiveCards`; `acc` = `ls.active` so far; `avail` = `ls.devices` (keyed by device number) -/
+def activateLoop (avail : List Dev) : List Int → List Dev → List Dev × Bool
+  | [], acc => (acc, true)
+  | c :: cs, acc =>
+    match avail.find? (fun d => d.devnum == c) with
+    | none => (acc, false)
+    | some d =>
+      if acc.any (fun a => a.devnum == c) then (acc, false)
+      else activateLoop avail cs (acc ++ [d])
+
+def lanceroConfigure (avail : List Dev) (o : LObj) (r : LReq) : LObj × Bool :=
+  let res := activateLoop avail r.active []
+  ({ o with cfg := { firstRow := r.firstRow, sepCards := r.sepCards, sepCols := r.sepCols, devs := res.1 } }, res.2)
+
 /-- the true geometry of stream positions: (row, col, rows, cols), one entry per pixel -/
 def devGeom (d : Dev) : List (Nat × Nat × Nat × Nat) :=
   (List.range d.ncols).flatMap fun col => (List.range d.nrows).map fun row => (row, col, d.nrows, d.ncols)
@@ -502,6 +530,7 @@ def pGroup : P Group := do
 inductive RRes where
   | rejected
   | configOk
+  | conf (ok : Bool) (active : List Int)     -- a Lancero Configure answer and the active cards it left
   | panic
   | tables (o : ROut)
 deriving Repr
@@ -512,6 +541,8 @@ def pRes : P RRes := do
   match t with
   | "E" => pure .rejected
   | "K" => pure .configOk
+  | "KA" => do let l ← list int; pure (.conf true l)
+  | "EA" => do let l ← list int; pure (.conf false l)
   | "PANIC" => pure .panic
   | "T" => do
     let nchan ← int
@@ -561,6 +592,7 @@ def judge (inp : Input) (mres : Option Tables) (res : RRes) (what : String) : Ex
   match res with
   | .panic => .error (.viol s!"C19:panic the real code panicked ({what})")
   | .configOk => .error (.bad s!"{what}: a Configure answer where tables are expected")
+  | .conf _ _ => .error (.bad s!"{what}: a Configure answer where tables are expected")
   | .rejected =>
     match mres with
     | none => .ok none
@@ -629,6 +661,9 @@ inductive HStep where
   | other (inp : Input)
   | gconf (nchan : Int) (late : Bool)     -- a Configure request to a simulated source
   | gstart                                 -- Sample + PrepareChannels of a simulated source
+  | devs (avail : List Dev)                -- the devices a LanceroSource has
+  | lreq (r : LReq)                        -- a Configure request to the LanceroSource
+  | lprep                                  -- Sample-equivalent + PrepareChannels of the LanceroSource
 deriving Repr
 
 open P in
@@ -648,31 +683,80 @@ def pHStep : P HStep := do
   | "R" => do let n ← nat; pure (.other (.roach n))
   | "C" => do let _kind ← nat; let n ← int; let late ← bool; pure (.gconf n late)
   | "P" => pure .gstart
+  | "D" => do
+    let nrows ← nat
+    let ds ← list (do let d ← int; let nc ← nat; pure ({ devnum := d, ncols := nc, nrows := nrows } : Dev))
+    pure (.devs ds)
+  | "Q" => do
+    let fr ← int; let sc ← int; let sl ← int
+    let l ← list int
+    pure (.lreq { active := l, firstRow := fr, sepCards := sc, sepCols := sl })
+  | "PL" => pure .lprep
   | _ => fail s!"bad step {k}"
 
 /-- run a history through the model and judge the implementation's result after EVERY step;
 returns the inputs and accepted tables per step -/
-def judgeHistory : LObj → GObj → Nat → List HStep → List RRes → Except Verdict (List (Input × Option Tables))
-  | _, _, _, [], _ => .ok []
-  | _, _, _, _ :: _, [] => .error (.bad "fewer results than steps")
-  | o, g, k, .gconf n late :: sts, r :: rs =>
-    let (g', ok) := genericConfigure g n late
+structure HSt where
+  l : LObj := LObj.fresh
+  g : GObj := 0
+  avail : List Dev := []
+  /-- set while the implementation holds an active-card list with a device in it twice -/
+  implDup : Option (List Dev) := none
+
+def judgeHistory : HSt → Nat → List HStep → List RRes → Except Verdict (List (Input × Option Tables))
+  | _, _, [], _ => .ok []
+  | _, _, _ :: _, [] => .error (.bad "fewer results than steps")
+  | st, k, .devs a :: sts, _ :: rs => judgeHistory { st with avail := a } (k + 1) sts rs
+  | st, k, .gconf n late :: sts, r :: rs =>
+    let (g', ok) := genericConfigure st.g n late
     match r with
     | .panic => .error (.viol s!"C19:panic the real code panicked (Configure, step {k + 1})")
-    | .tables _ => .error (.bad "tables where a Configure answer is expected")
-    | .rejected => if ok then .error (.diff s!"step {k + 1}: Configure refused, model accepts") else judgeHistory o g' (k + 1) sts rs
-    | .configOk => if ok then judgeHistory o g' (k + 1) sts rs else .error (.diff s!"step {k + 1}: Configure accepted, model refuses")
-  | o, g, k, st :: sts, r :: rs =>
-    let (o', g', inp, m) : LObj × GObj × Input × Option Tables := match st with
-      | .l ls => ((lanceroObjStep o ls).1, g, .lancero (lanceroStepCfg o ls), (lanceroObjStep o ls).2)
-      | .other (.generic n) => (o, (genericConfigure g n false).1, .generic n, genericPrepare n)
-      | .other i => (o, g, i, i.model)
-      | .gconf _ _ => (o, g, .generic g, none)   -- not reached
-      | .gstart => (o, g, .generic g, some (genericStart g))
+    | .rejected => if ok then .error (.diff s!"step {k + 1}: Configure refused, model accepts") else judgeHistory { st with g := g' } (k + 1) sts rs
+    | .configOk => if ok then judgeHistory { st with g := g' } (k + 1) sts rs else .error (.diff s!"step {k + 1}: Configure accepted, model refuses")
+    | _ => .error (.bad "tables where a Configure answer is expected")
+  | st, k, .lreq rq :: sts, r :: rs =>
+    let (o', mok) := lanceroConfigure st.avail st.l rq
+    match r with
+    | .panic => .error (.viol s!"C19:panic the real code panicked (Configure, step {k + 1})")
+    | .conf ok act =>
+      if ok == mok && act == o'.cfg.devs.map (·.devnum) then
+        judgeHistory { st with l := o', implDup := none } (k + 1) sts rs
+      else if ok ∧ ¬ act.Nodup then
+        -- the implementation activated a device twice: follow ITS state to the next Start and judge the tables it reports
+        let devs := act.filterMap fun c => st.avail.find? (fun d => d.devnum == c)
+        let oi : LObj := { o' with cfg := { o'.cfg with devs := devs } }
+        match judgeHistory { st with l := oi, implDup := some devs } (k + 1) sts rs with
+        | .error v => .error v
+        | .ok _ => .error (.diff s!"step {k + 1}: Configure accepted a card list with a repeated card (no Start followed)")
+      else .error (.diff s!"step {k + 1}: Configure answer/active cards differ: model ok={mok} active={o'.cfg.devs.map (·.devnum)}, impl ok={ok} active={act}")
+    | _ => .error (.bad "tables where a Configure answer is expected")
+  | st, k, .lprep :: sts, r :: rs =>
+    match st.implDup, r with
+    | some devs, .tables o =>
+      let t := o.tables
+      match chkTables true (lanceroGeom devs) t (o.rs.map (·.dec)) with
+      | some b => .error (.viol (b.sig ++ s!" [step {k + 1}: a device is active twice]"))
+      | none => .error (.viol s!"C19:card-twice Start accepted a configuration in which one device is active twice: the same (card, column, row) is reported as two different channels [step {k + 1}]")
+    | _, _ =>
+      let (o', m) := lanceroObjPrepare st.l
+      let inp := Input.lancero st.l.cfg
+      match judge inp m r s!"step {k + 1}" with
+      | .error v => .error v
+      | .ok t =>
+        match judgeHistory { st with l := o' } (k + 1) sts rs with
+        | .error v => .error v
+        | .ok rest => .ok ((inp, t) :: rest)
+  | st, k, hs :: sts, r :: rs =>
+    let (st', inp, m) : HSt × Input × Option Tables := match hs with
+      | .l ls => ({ st with l := (lanceroObjStep st.l ls).1 }, .lancero (lanceroStepCfg st.l ls), (lanceroObjStep st.l ls).2)
+      | .other (.generic n) => ({ st with g := (genericConfigure st.g n false).1 }, .generic n, genericPrepare n)
+      | .other i => (st, i, i.model)
+      | .gstart => (st, .generic st.g, some (genericStart st.g))
+      | _ => (st, .generic st.g, none)   -- not reached
     match judge inp m r s!"step {k + 1}" with
     | .error v => .error v
     | .ok t =>
-      match judgeHistory o' g' (k + 1) sts rs with
+      match judgeHistory st' (k + 1) sts rs with
       | .error v => .error v
       | .ok rest => .ok ((inp, t) :: rest)
 
@@ -722,7 +806,7 @@ def runLine (ts : List String) : Verdict :=
     match ress with
     | [.panic] => .viol "C19:panic the real code panicked (prepare)"
     | _ =>
-    match judgeHistory LObj.fresh 0 0 steps ress with
+    match judgeHistory {} 0 steps ress with
     | .error v => v
     | .ok js =>
       match judgeFiles ((js.getLast?.map (·.2)).join) files with
@@ -737,7 +821,10 @@ def runLine (ts : List String) : Verdict :=
         let later := if hist then (js.drop 1).flatMap (fun (inp, t) => (kindTags inp t).filter
             (fun s => s == "would-collide" || s == "multi" || s == "cards-unordered")) else []
         let conf := (if steps.any (fun s => match s with | .gconf n true => decide (n ≥ 1) | _ => false) then ["late-refused"] else []) ++
-          (if steps.any (fun s => match s with | .gstart => true | _ => false) then ["start-after-configure"] else [])
+          (if steps.any (fun s => match s with | .gstart => true | _ => false) then ["start-after-configure"] else []) ++
+          (if steps.any (fun s => match s with | .lreq r => !decide r.active.Nodup | _ => false) then ["cards-repeated"] else []) ++
+          (if steps.any (fun s => match s with | .lreq r => decide r.active.Nodup && !decide (r.active.Pairwise (· < ·)) | _ => false) then ["cards-unsorted-list"] else []) ++
+          (if steps.any (fun s => match s with | .lreq _ => true | _ => false) then ["real-configure"] else [])
         .ok ((first ++ retry ++ later ++ conf ++ (if hist then ["history"] ++ historyTags js else []) ++ ft).eraseDups)
 
 end DastardV.C19
